@@ -65,6 +65,13 @@ func TestC06(t *testing.T) {
 		if len(in.Cols) == 0 {
 			t.Skip("no columns")
 		}
+		// now and then the receiver has an earlier life that touched its data columns (observed afterwards)
+		if recvKind == "derived" && steps > 1 && rapid.IntRange(0, 5).Draw(t, "history") == 0 {
+			var hist hx.History
+			recv, in, hist = hx.GenHistory(t, recv, in, true)
+			obs = in
+			recvKind = "derived, " + hist.String()
+		}
 		n := in.N()
 		all := hx.Iota(n)
 
